@@ -33,7 +33,9 @@ META = dict(
          "2 topics are executed on the real code (public API only) and every clause is evaluated by TLC on the recorded "
          "requests, coordinator store and NextOffset results; the coordinator also injects connection faults per commit (FIN or RST after "
          "reading the request, before/after applying it, or on the idle connection; afterwards the same coordinator stays or it moves) at manual "
-         "commits, ticker commits and the final attempts of Close with Retry.Max 0/1/3; thorough adds ticker-driven auto-commit with 2-3 marking goroutines.",
+         "commits, ticker commits and the final attempts of Close with Retry.Max 0/1/3, and answers commits with every error code -1..90 "
+         "(whole response / one partition) after which the coordinator stays or moves to the other broker while the old one keeps answering "
+         "that code (model: coordinator location, cached coordinator, NeverTalksToOldCoordinator); thorough adds ticker-driven auto-commit with 2-3 marking goroutines.",
     note="bounded model; marks between two partitions' snapshots and between two partitions' response handling are explored "
          "exhaustively in the model but reached on the real code only by the free-running ticker family (thorough); a pending "
          "position that differs from the stored one must be carried by the NEXT commit request; coordinator simulated "
@@ -62,6 +64,10 @@ def model_check(ctx):
     if bug2.timed_out or bug2.error or bug2.violated != "ClosedOnlyAfterExhausted":
         raise vlib.Inconclusive("non-vacuity self-test: the variant whose Close loop stops when one topic is clean did not violate "
                                 "ClosedOnlyAfterExhausted")
+    bug3 = ctx.tlc("OffsetManager", "OffsetManager.bug3.cfg", workers=1, timeout=300, name="bug3")
+    if bug3.timed_out or bug3.error or bug3.violated != "ClosedOnlyAfterExhausted":
+        raise vlib.Inconclusive("non-vacuity self-test: the variant that keeps the cached coordinator on the redispatch classes did not "
+                                "violate ClosedOnlyAfterExhausted")
     bug.second = bug2.violated
     return mc, bug
 
@@ -82,10 +88,11 @@ def gen_cases(ctx, out):
     thorough = ctx.tier == "thorough"
     plan = [("OffsetManager.gen.seq.cfg", 0), ("OffsetManager.gen.win.cfg", 0), ("OffsetManager.gen.win3.cfg", 0),
             ("OffsetManager.gen.close.cfg", 0), ("OffsetManager.gen.conn.cfg", 0), ("OffsetManager.gen.conn2.cfg", 0),
+            ("OffsetManager.gen.codes.all.cfg" if thorough else "OffsetManager.gen.codes.cfg", 0),
             ("OffsetManager.sim.seq.cfg", 6000 if thorough else 300), ("OffsetManager.sim.win.cfg", 9000 if thorough else 400)]
     stats = []
     n = 0
-    with concurrent.futures.ThreadPoolExecutor(max_workers=8) as ex:
+    with concurrent.futures.ThreadPoolExecutor(max_workers=9) as ex:
         futs = [ex.submit(gen_one, ctx, cfg, sim, ctx.seed) for cfg, sim in plan]
         res = [f.result() for f in futs]
     with open(out, "w") as f:
@@ -115,8 +122,11 @@ def run(ctx):
         t0 = time.time()
         ncases, nticks, gstats = gen_cases(ctx, cases)
         t1 = time.time()
-        rc, out, trace, sums = ctx.go_test_parallel("^TestVerifOffsetManager$", cases, nproc=8, timeout=1500 if thorough else 900,
-                                                    name="om", only=ONLY)
+        try:
+            rc, out, trace, sums = ctx.go_test_parallel("^TestVerifOffsetManager$", cases, nproc=8, timeout=1500 if thorough else 900,
+                                                        name="om", only=ONLY)
+        except AttributeError as e:   # a worker died in the middle of a line: its trace cannot be merged
+            raise vlib.Inconclusive("a harness worker process died and left a truncated trace (%s)" % e)
         ctx.need_go(rc, out, "offset manager replay")
         t2 = time.time()
         if not trace or not os.path.exists(trace):
@@ -218,6 +228,15 @@ def run(ctx):
                         "script. A flush that fails with EOF / reset / broken pipe although the coordinator side did nothing to the connection "
                         "(client failing locally on a dead connection object while the coordinator is reachable and unchanged) is NOT excused: "
                         "it neither counts as a refusal nor un-steers",
+                        "error codes: every KError code -1..90 is answered (whole response / one partition; thorough: every code, quick: the codes "
+                        "of every class and its boundaries incl. 5, 6, 12, 14, 15, 16, 28, plus class-wise rotation over all codes in the other "
+                        "families); the class of a code is taken from handleResponse as it is: 5/6/15/16 drop the cached coordinator silently, "
+                        "12/28 report only, 14 does nothing, every other code reports and drops the coordinator. The group coordinator MOVES to the "
+                        "other broker (the old one keeps answering the same code) only together with an answer of a class after which the client "
+                        "is supposed to resolve the coordinator again (5/6/15/16 and the default class) or with a connection fault; after codes "
+                        "for which the code keeps the cached coordinator by design (0, 12, 28, 14, missing block) a move is outside what the "
+                        "property promises and is not generated. Refusals are counted only from the broker that is the coordinator when the "
+                        "request arrives",
                         "the coordinator is simulated: MockBroker transport, own offset store, answers scripted by the TLC behaviour",
                         "model bounds: 2 partitions, offsets 0..2, 2 metadata values, 3 calls, <=2 commits + final attempts, 1 fault (exhaustive); "
                         "3 partitions, offsets 0..4, 8-10 calls, 4 commits, 5 faults (simulation)"],
